@@ -54,22 +54,30 @@ def spec_programs(wd, tier, res):
     return progs, kinds
 
 # ---------------------------------------------------------------------------------------------- pipeline
-def show(path):
-    return sh([build.SOUFFLE, "--show=initial-ast", path], timeout=120)
+_RAM_MARK = "\nPROGRAM\n DECLARATION\n"
 
-def ram_initial(path, tag):
-    ini = path + "." + tag + "_ram_initial.json"; fin = path + "." + tag + "_ram_final.json"
-    for p in (ini, fin):
-        if os.path.exists(p):
-            os.remove(p)
-    rc, out, err = sh([build.SOUFFLE, "--show=transformed-ram", path], timeout=120,
-                      env={"SOUFFLE_VERIF_RAM_INITIAL": ini, "SOUFFLE_VERIF_RAM_FINAL": fin})
-    if rc != 0 or not os.path.exists(ini):
-        return None, "rc=%s %s" % (rc, err[-600:])
-    try:
-        return norm_ram(json.load(open(ini))), None
-    except Exception as e:
-        return None, "unreadable RAM dump: %r" % (e,)
+def front_end(path, tag):
+    """one run of the real front end: `--show=initial-ast --show=initial-ram` prints the parsed program, then (if the
+    semantic phases accept it) the RAM text, and hook H3 dumps RAM_initial as JSON.
+    Returns (printed program or None if the parser rejects, RAM JSON or None, stderr)."""
+    ini = path + "." + tag + "_ram_initial.json"
+    if os.path.exists(ini):
+        os.remove(ini)
+    rc, out, err = sh([build.SOUFFLE, "--show=initial-ast", "--show=initial-ram", path], timeout=120,
+                      env={"SOUFFLE_VERIF_RAM_INITIAL": ini})
+    if rc == -999:
+        return None, None, "TIMEOUT"
+    k = out.rfind(_RAM_MARK)
+    printed = out[:k + 1] if k >= 0 else out
+    if printed == "":
+        return None, None, err
+    ram = None
+    if rc == 0 and os.path.exists(ini):
+        try:
+            ram = norm_ram(json.load(open(ini)))
+        except Exception as e:
+            err += "\nunreadable RAM dump: %r" % (e,)
+    return printed, ram, "rc=%s %s" % (rc, err)
 
 def norm_ram(x):
     """the RAM program without source locations (debug text keeps the clause text, drops file name and position)"""
@@ -132,8 +140,8 @@ def pipeline(d, text, repair_kinds, expect=(), cases=None, P=None):
     src = os.path.join(d, "P.dl")
     with open(src, "w") as f:
         f.write(text)
-    rc, p1, err = show(src)
-    if rc != 0:
+    p1, r0, err = front_end(src, "P")
+    if p1 is None:
         return {"status": "rejected", "stage": "source", "detail": err[-600:]}
     with open(os.path.join(d, "P1.printed.dl"), "w") as f:
         f.write(p1)
@@ -141,9 +149,9 @@ def pipeline(d, text, repair_kinds, expect=(), cases=None, P=None):
     qp = os.path.join(d, "P1.dl")
     with open(qp, "w") as f:
         f.write(q)
-    rc, p2, err = show(qp)
-    if rc != 0:
-        return {"status": "fail", "stage": "reparse", "detail": "the printed form is rejected: " + err[-600:]}
+    p2, r1, err1 = front_end(qp, "P1")
+    if p2 is None:
+        return {"status": "fail", "stage": "reparse", "detail": "the printed form is rejected: " + err1[-600:]}
     if p2 != p1:
         with open(os.path.join(d, "P2.printed.dl"), "w") as f:
             f.write(p2)
@@ -151,13 +159,11 @@ def pipeline(d, text, repair_kinds, expect=(), cases=None, P=None):
         i = next((i for i in range(min(len(a), len(b))) if a[i] != b[i]), min(len(a), len(b)))
         return {"status": "fail", "stage": "fixpoint", "detail": "printing the printed form changes it at line %d: %r -> %r"
                 % (i + 1, a[i] if i < len(a) else None, b[i] if i < len(b) else None)}
-    r0, e0 = ram_initial(src, "P")
     if r0 is None:
         # accepted by the parser but not by the later phases (e.g. a semantic error): there is no meaning to preserve
-        return {"status": "rejected", "stage": "source-semantic", "detail": e0}
-    r1, e1 = ram_initial(qp, "P1")
+        return {"status": "rejected", "stage": "source-semantic", "detail": err[-600:]}
     if r1 is None:
-        return {"status": "fail", "stage": "ram-dump", "detail": "the printed form parses but is rejected later: " + e1}
+        return {"status": "fail", "stage": "ram-dump", "detail": "the printed form parses but is rejected later: " + err1[-600:]}
     dd = first_diff(r0, r1)
     if dd:
         return {"status": "fail", "stage": "ram", "detail": "RAM_initial of the printed form differs from the original's: " + dd}
@@ -358,11 +364,14 @@ def decorate(P, rng):
             if q == "inline" and (r["input"] or r["output"]):
                 q = "no_inline"
             r["quals"] = list(r.get("quals", [])) + [q]
+    scc = {r: i for i, st in enumerate(P.get("strata", [])) for r in st}
     for c in P.get("src_clauses") or P["clauses"]:
         if c.get("disj") or c.get("heads"):
             continue
         n = sum(1 for l in c["body"] if l["k"] == "atom")
-        if n >= 2 and rng.random() < 0.5:
+        # souffle accepts a plan on recursive clauses only
+        rec = any(l["k"] == "atom" and scc.get(l["rel"]) == scc.get(c["head"]["rel"]) for l in c["body"])
+        if rec and n >= 2 and rng.random() < 0.7:
             perm = list(range(1, n + 1)); rng.shuffle(perm)
             c["plan"] = [(0, perm)]
     return P
